@@ -11,6 +11,7 @@ mod doc;
 mod stack;
 mod c15;
 mod c15loc;
+mod c14sp;
 mod c04;
 mod c03;
 mod c20;
@@ -67,6 +68,7 @@ fn dispatch(mode: &str, line: &str) -> String {
         "stack" => stack::run(line),
         "c15" => c15::run(line),
         "c15d" => c15loc::run(line),
+        "c14s" => c14sp::run(line),
         "c04" => c04::run(line),
         "c03" => c03::run_print(line),
         "c14" => c03::run_spans(line),
